@@ -8,7 +8,7 @@ still holds.  The checks must stay silent on them.
 import sys, os, json, subprocess, re, time
 ROOT = os.path.dirname(os.path.dirname(os.path.abspath(__file__)))
 BEN = os.path.join(ROOT, 'benign')
-SCRATCH = '/tmp/benignrun'
+SCRATCH = os.environ.get('BENIGNRUN_DIR', '/tmp/benignrun')
 ALL = ['C%02d' % i for i in range(1, 20)]
 
 
@@ -61,7 +61,7 @@ def verify(name):
 
 
 def run(name, props):
-    names = sorted(d for d in os.listdir(BEN) if os.path.isdir(os.path.join(BEN, d))) if name == 'all' else [name]
+    names = sorted(d for d in os.listdir(BEN) if os.path.isdir(os.path.join(BEN, d))) if name == 'all' else name.split(',')
     prepare(names)
     env = dict(os.environ)
     env['VERIF_REPO'] = SCRATCH
@@ -82,7 +82,7 @@ def run(name, props):
     for n in names:
         mp = os.path.join(BEN, n, 'meta.json')
         meta = json.load(open(mp)) if os.path.exists(mp) else {'id': n}
-        key = 'checks_combined' if name == 'all' else 'checks'
+        key = 'checks_combined' if len(names) > 1 else 'checks'
         meta.setdefault(key, {}).update(res)
         meta['silent'] = all(v['exit'] == 0 for k in ('checks', 'checks_combined') for v in meta.get(k, {}).values())
         json.dump(meta, open(mp, 'w'), indent=1)
